@@ -398,3 +398,64 @@ Definition run (c : cfg) (st : state) (ops : list op) : state :=
 
 Definition results (c : cfg) (st : state) (ops : list op) : list res :=
   snd (fold_left (fun '(st, acc) o => let '(r, st') := step c st o in (st', acc ++ [r])) ops (st, [])).
+
+(* ---------- resending (SetResendThreshold, the resend decision inside RemoveStale) ----------
+   Every item carries the block height at which it was added (item.blockStamp = Feer.BlockHeight() in Add);
+   here a table hash -> stamp beside the pool, overwritten by every successful Add (hashes are unique in the
+   pool). With a resend threshold set, RemoveStale, while it rebuilds the side tables for a kept item, also
+   decides whether the item is handed to the resend callback: height - stamp = threshold * 2^k. The decision
+   must not influence what is recorded for the item. *)
+Definition pow2 (q : N) : bool := negb (q =? 0) && (N.land q (q - 1) =? 0).      (* bits.OnesCount32(q) == 1 *)
+Definition resend_due (threshold diff : N) : bool :=
+  negb (threshold =? 0) && (diff mod threshold =? 0) && pow2 (diff / threshold).
+
+Definition stamp_of (stamps : list (N * N)) (t : tx) : N :=
+  match mget N.eqb (tid t) stamps with Some h => h | None => 0 end.
+
+(* the loop body of RemoveStale with the resend decision; the last component collects the items to resend *)
+Definition stale_step_rs (bal : payer -> N) (isok : tx -> bool) (changed : bool) (fpb : N)
+           (height threshold : N) (stamps : list (N * N))
+           (acc : list tx * list (N * tx) * list (payer * (N * N)) * list (N * list N) * list (N * N) * list tx) (t : tx) :=
+  let '(keep, vm, f, c, o, rs) := acc in
+  let pass :=
+    if isok t && (negb changed || (fpb <=? fee_per_byte t))
+    then try_add_senders_fee bal f t true
+    else (false, f) in
+  if fst pass then
+    (keep ++ [t], vm, snd pass,
+     fold_left (fun c h => mset N.eqb h ((match mget N.eqb h c with Some l => l | None => [] end) ++ [tid t]) c) (confl t) c,
+     o,
+     if resend_due threshold (height - stamp_of stamps t) then rs ++ [t] else rs)
+  else
+    (keep, mdel N.eqb (tid t) vm, snd pass, c,
+     match oracle t with Some id => mdel N.eqb id o | None => o end, rs).
+
+Definition remove_stale_rs (bal : payer -> N) (newfpb : N) (isok : tx -> bool) (height threshold : N)
+           (stamps : list (N * N)) (s : pool) : pool * list tx :=
+  let changed := fpbmin s <? newfpb in
+  let fpb := if changed then newfpb else fpbmin s in
+  let '(keep, vm, f, c, o, rs) :=
+    fold_left (stale_step_rs bal isok changed fpb height threshold stamps) (vtxs s) ([], vmap s, [], [], oresp s, []) in
+  (mkPool keep vm f c o (cap s) fpb, rs).
+
+(* operations with the chain height they run at, and the threshold *)
+Inductive rop :=
+| RO (o : op) (height : N)          (* Feer.BlockHeight() during the operation *)
+| RSetResend (threshold : N).
+
+Record rstate := mkR { r_st : state; r_stamps : list (N * N); r_thr : N }.
+
+Definition rstep (c : cfg) (rs : rstate) (ro : rop) : (res * list tx) * rstate :=
+  match ro with
+  | RSetResend t => ((ROk, []), mkR (r_st rs) (r_stamps rs) t)
+  | RO (OStale isok bal' newfpb) h =>
+      let '(p, resent) := remove_stale_rs bal' newfpb isok h (r_thr rs) (r_stamps rs) (st_pool (r_st rs)) in
+      ((ROk, resent), mkR (mkState p bal') (r_stamps rs) (r_thr rs))
+  | RO (OAdd t) h =>
+      let '(r, st') := step c (r_st rs) (OAdd t) in
+      ((r, []), mkR st' (match r with ROk => mset N.eqb (tid t) h (r_stamps rs) | _ => r_stamps rs end) (r_thr rs))
+  | RO o h =>
+      let '(r, st') := step c (r_st rs) o in ((r, []), mkR st' (r_stamps rs) (r_thr rs))
+  end.
+
+Definition rrun (c : cfg) (rs : rstate) (ops : list rop) : rstate := fold_left (fun rs o => snd (rstep c rs o)) ops rs.
